@@ -13,7 +13,20 @@ using vf::Rng;
 using vf::Scenario;
 using namespace gu;
 
+extern void (*verif_tt_index_observer)(unsigned long long, unsigned long long, unsigned long long);
+
 namespace {
+
+// hash table geometry seen by the probe search (must equal that of a fresh engine: Clear Hash restores the full table)
+bool g_probeActive = false;
+unsigned long long g_usedMin = ~0ULL, g_usedMax = 0, g_tableSize = 0;
+void indexObserver(unsigned long long, unsigned long long usedSize, unsigned long long tableSize) {
+    if (!g_probeActive) return;
+    if (usedSize < g_usedMin) g_usedMin = usedSize;
+    if (usedSize > g_usedMax) g_usedMax = usedSize;
+    g_tableSize = tableSize;
+}
+void probeMarker(const std::string& text) { if (text == "probe begins") g_probeActive = true; }
 
 /** The probe search's observable result: score lines without time/nps, final node count, bestmove. */
 std::string probeTranscript(const sess::History& h, const uci::Model& m) {
@@ -39,12 +52,19 @@ std::string probeTranscript(const sess::History& h, const uci::Model& m) {
             lastStats = "final nodes " + t[2];
     }
     out += lastStats + "\n";
+    out += "hash geometry during the probe: used " + std::to_string(g_usedMin) + ".." + std::to_string(g_usedMax) + " of " + std::to_string(g_tableSize) + " entries\n";
     return out;
 }
 
 std::string runAndTranscribe(const Scenario& sc, vf::Result& res, bool checkOracles) {
     sess::History h;
+    g_probeActive = false;
+    g_usedMin = ~0ULL; g_usedMax = 0; g_tableSize = 0;
+    verif_tt_index_observer = indexObserver;
+    sess::customOp = probeMarker;
     sess::runSession(sc, h, res);
+    verif_tt_index_observer = nullptr;
+    sess::customOp = nullptr;
     uci::Model m;
     uci::buildModel(h, m);
     if (checkOracles) {
@@ -109,6 +129,7 @@ void runC14(const Scenario& sc, vf::Result& res) {
     b.ops.clear();
     for (size_t i = 0; i < sc.ops.size(); i++) {
         if (i == mark) continue;
+        if (i > mark && vf::startsWith(sc.ops[i], "send go")) { a.ops.push_back("x probe begins"); b.ops.push_back("x probe begins"); }
         a.ops.push_back(sc.ops[i]);
         if (i > mark) b.ops.push_back(sc.ops[i]);
         else if (vf::startsWith(sc.ops[i], "send setoption ") && sc.ops[i].find("Clear Hash") == std::string::npos)
